@@ -171,6 +171,48 @@ class Effects:
                 break
         return name
 
+    def may_return_self(self, node, stack=()):
+        """Can the function return its own receiver?  (return self / return self.m() where m may return self)"""
+        key = ('mrs', node)
+        if key in self._selfeff:
+            return self._selfeff[key]
+        if node in stack:
+            return False
+        f = self.m.funcs[node[0]]
+        edges, selfname = self.edges(node)
+        res = False
+        if selfname is not None:
+            fa = self.ctx.fa(node)
+            for x in own_walk(f.node):
+                if isinstance(x, ast.Return) and x.value is not None:
+                    vals = [x.value.body, x.value.orelse] if isinstance(x.value, ast.IfExp) else [x.value]
+                    for v in vals:
+                        if isinstance(v, ast.Name) and self.resolve_alias(node, v.id, selfname) == selfname:
+                            res = True
+                        if isinstance(v, ast.Call):
+                            for (cn, root, cs) in edges:
+                                if cs.node is v and root == selfname and self.may_return_self(cn, stack + (node,)):
+                                    res = True
+        self._selfeff[key] = res
+        return res
+
+    def maybe_self_locals(self, node):
+        """Local names that may denote the receiver itself: assigned from a self-call that can return self."""
+        f = self.m.funcs[node[0]]
+        edges, selfname = self.edges(node)
+        out = set()
+        if selfname is None:
+            return out
+        for x in own_walk(f.node):
+            if isinstance(x, ast.Assign) and len(x.targets) == 1 and isinstance(x.targets[0], ast.Name):
+                vals = [x.value.body, x.value.orelse] if isinstance(x.value, ast.IfExp) else [x.value]
+                for v in vals:
+                    if isinstance(v, ast.Call):
+                        for (cn, root, cs) in edges:
+                            if cs.node is v and root == selfname and self.may_return_self(cn):
+                                out.add(x.targets[0].id)
+        return out
+
     # ------------------------------------------------------------------ transitive self effects
     def selfeff(self, node, stack=()):
         """Set of (kind, function key, detail) store effects on ``self`` of this function, through self-calls."""
@@ -183,11 +225,12 @@ class Effects:
         if selfname is None:
             self._selfeff[node] = out
             return out
+        maybe = self.maybe_self_locals(node) if not stack or True else set()
         for e in self.direct(node):
-            if self.resolve_alias(node, e.root, selfname) == selfname and e.kind in ('install', 'inplace'):
-                out.add((e.kind, node[0], e.detail))
+            if (self.resolve_alias(node, e.root, selfname) == selfname or e.root in maybe) and e.kind in ('install', 'inplace'):
+                out.add((e.kind, node[0], e.detail + (' (on a local that may be self)' if e.root in maybe else '')))
         for (cn, root, cs) in edges:
-            if root is not None and self.resolve_alias(node, root, selfname) == selfname:
+            if root is not None and (self.resolve_alias(node, root, selfname) == selfname or root in maybe):
                 out |= self.selfeff(cn, stack + (node,))
         if not stack:
             self._selfeff[node] = out
